@@ -169,9 +169,9 @@ impl std::ops::Add<&Specificity> for &Specificity {
     fn add(self, rhs: &Specificity) -> Self::Output {
         Specificity {
             inline: self.inline || rhs.inline,
-            id: self.id + rhs.id,
-            class: self.class + rhs.class,
-            typ: self.typ + rhs.typ,
+            id: self.id.saturating_add(rhs.id),
+            class: self.class.saturating_add(rhs.class),
+            typ: self.typ.saturating_add(rhs.typ),
         }
     }
 }
@@ -179,9 +179,9 @@ impl std::ops::Add<&Specificity> for &Specificity {
 impl std::ops::AddAssign<&Specificity> for Specificity {
     fn add_assign(&mut self, rhs: &Specificity) {
         self.inline = self.inline || rhs.inline;
-        self.id += rhs.id;
-        self.class += rhs.class;
-        self.typ += rhs.typ;
+        self.id = self.id.saturating_add(rhs.id);
+        self.class = self.class.saturating_add(rhs.class);
+        self.typ = self.typ.saturating_add(rhs.typ);
     }
 }
 
